@@ -40,7 +40,8 @@ def resolve_statics(m):
 
 def is_guard_ctor(f):
     """role: the private constructor(s) of the scoped-installation guard"""
-    return f.dk in ("Fn", "AssocFn") and not f.j.get("exported") and not f.j.get("impl_trait") and "recorder::LocalRecorderGuard" in f.j.get("sig", "").split("->")[-1]
+    sig = f.j.get("sig", "")
+    return f.dk in ("Fn", "AssocFn") and not f.j.get("exported") and not f.j.get("impl_trait") and "->" in sig and "LocalRecorderGuard<" in sig.split("->")[-1]
 
 
 def is_cell_load(f):
